@@ -1,5 +1,7 @@
 //! `vh` — the Rust side of /verif: drivers that run the real samlang code and record
 //! traces for the TLA+ specifications, and replayers for TLC-generated behaviours.
+mod compile;
+mod exec;
 mod heap;
 mod util;
 
@@ -8,6 +10,7 @@ fn main() {
   let cmd = args.get(1).map(|s| s.as_str()).unwrap_or("");
   let rest = &args[2.min(args.len())..];
   match cmd {
+    "compile" => compile::main(rest),
     "heap-drive" => heap::drive(rest),
     "heap-replay" => heap::replay(rest),
     _ => {
